@@ -54,6 +54,17 @@ func Offsets(t *rapid.T, n int, label string) []float32 {
 			out[i] = math.Nextafter32(out[i-1], 2)
 		}
 	}
+	if n >= 2 && rapid.IntRange(0, 5).Draw(t, label+".close") == 0 {
+		// two stops next to nothing apart at the very start (a hard step at 0 that is still
+		// strictly increasing): 0, then the smallest float32 or some other tiny value
+		out[0] = 0
+		out[1] = rapid.SampledFrom([]float32{math.SmallestNonzeroFloat32, 1e-30, 1e-10, 3e-8}).Draw(t, label+".closeby")
+		for i := 2; i < n; i++ {
+			if !(out[i] > out[i-1]) {
+				out[i] = math.Nextafter32(out[i-1], 2)
+			}
+		}
+	}
 	if n > 0 && out[0] == 0 && rapid.IntRange(0, 3).Draw(t, label+".negzero") == 0 {
 		out[0] = float32(math.Copysign(0, -1)) // minus zero is zero: a valid first offset
 	}
